@@ -87,17 +87,25 @@ def closedChain (predefs : List Var) (iv : Var) : List Stmt → List Var → Boo
       args.all (fun y => K.contains y || (!predefs.contains y && y != iv)) && closedChain predefs iv r (d :: K)
     | _ => closedChain predefs iv r K
 
+/-- statements that may stand between the loop head and the rotated setup besides pure operations: they define no variable
+and leave the registers of `a` alone (calls without effects, awaits, setups of other accelerators) -/
+def isQuiet (a : AccId) : Stmt → Bool
+  | .call _ eff => !eff
+  | .await _ => true
+  | .setup a' _ => a' != a
+  | _ => false
+
 /-- Side conditions under which `Props/C06.lean` proves the rotation correct (all decidable, evaluated on every real
 loop-level step):
 * `pre` (the statements of the body in front of the rotated setup) are pure operations in SSA order that do not define
-  the induction variable; the setup names no field twice;
+  the induction variable, or quiet statements (`isQuiet`); the setup names no field twice;
   (then the cloned input chain is closed and covers every variable of the setup that `pre` defines: `inputChain_closed`);
 * the step and the induction variable are not redefined in the loop body;
 * all variables of the loop are below `fresh` (the clones get the ids from `fresh` on). -/
-def loopSide (_a : AccId) (fs : List (Field × Var)) (pre after : List Stmt) (lb ub st iv : Var) (fresh : Nat) : Bool :=
+def loopSide (a : AccId) (fs : List (Field × Var)) (pre after : List Stmt) (lb ub st iv : Var) (fresh : Nat) : Bool :=
   let predefs := pre.flatMap pureDef
   let bodyDefs := predefs ++ defsB (Block.ofList after)
-  pre.all isPure && pureSSA pre && !predefs.contains iv &&
+  pre.all (fun s => isPure s || isQuiet a s) && pureSSA pre && !predefs.contains iv &&
   decide (fs.map (·.1)).Nodup &&
   !bodyDefs.contains st && !bodyDefs.contains iv && st != iv &&
   ([lb, ub, st, iv] ++ bodyDefs ++ readsB (Block.ofList (pre ++ after)) ++ fs.map (·.2)).all (fun x => x < fresh)
